@@ -67,6 +67,8 @@ FINDINGS_ALL = _load_findings()
 
 def classify(case, fail, il, findings):
     ids = set(f["id"] for f in findings)
+    if "C11-KF1" in ids and case.id == "extra" and fail.startswith("[close-no-disconnected]"):
+        return "C11-KF1"
     if "C11-KF1" in ids and case.meta.get("kf_witness") == "C11-KF1":
         return "C11-KF1"
     if "C11-KF2" in ids and case.meta.get("kf") and "abort" in fail and S.aborted(S.cut(case, il)) is None:
@@ -92,3 +94,51 @@ def search(rng, binaries, log):
         if f and not classify(c, f, il, FINDINGS_ALL):
             return (c, f, il)
     return None
+
+
+def extra_checks(tier, rng, binaries, log):
+    """teardown racing with accepts on real loopback sockets: n clients sit in the listen backlog, the k-th connected
+    event posts shutdown()/close(); the loop must run out of work, no connected event may follow, every connected
+    connection is disconnected and every client is released"""
+    import re
+    import subprocess
+    import vlib
+    res = []
+    try:
+        binary = binaries.get("net_driver") or vlib.build_harness("net_driver", log)
+    except vlib.BuildError as e:
+        return [(False, "net_driver does not build against the current tree: " + str(e)[-300:], "build net_driver", {})]
+    combos = [(c, at, a) for a in ("shutdown", "close") for c in ((2, 3) if tier == "quick" else (1, 2, 3, 5, 9))
+              for at in range(0, min(c, 3) + 1) if at <= c]
+    n = 0
+    for (c, at, a) in combos:
+        args = ["shutrace", "clients=%d" % c, "at=%d" % at, "action=" + a]
+        cmdline = "net_driver " + " ".join(args)
+        try:
+            r = subprocess.run([binary] + args, capture_output=True, text=True, timeout=60)
+        except subprocess.TimeoutExpired:
+            res.append((False, "net_driver %s hung" % " ".join(args), cmdline, {}))
+            continue
+        m = re.search(r"^RESULT (.*)$", r.stdout, re.M)
+        n += 1
+        if not m:
+            res.append((False, "abort: net_driver shutrace failed: " + (r.stdout + r.stderr)[-400:], cmdline, {}))
+            continue
+        kv = dict(x.split("=", 1) for x in m.group(1).split() if "=" in x)
+        if kv.get("acted") != "1":
+            continue
+        if kv.get("loop_returned") != "1":
+            res.append((False, "real sockets: the event loop still had outstanding work %s ms after %s() (clients=%d, posted by "
+                        "connected event %d)" % (kv.get("loop_ms"), a, c, at), cmdline, {}))
+        elif kv.get("connected_after") != "0":
+            res.append((False, "real sockets: %s connected event(s) after %s() had closed the server" % (kv.get("connected_after"), a), cmdline, {}))
+        elif kv.get("released") != str(c):
+            res.append((False, "real sockets: only %s of %d clients were released after %s()" % (kv.get("released"), c, a), cmdline, {}))
+        elif kv.get("exceptions") != "0":
+            res.append((False, "real sockets: an exception escaped into the event loop during %s()" % a, cmdline, {}))
+        elif kv.get("connected") != kv.get("disconnected"):
+            tag = "[close-no-disconnected] " if a == "close" and kv.get("disconnected") == "0" else ""
+            res.append((False, tag + "real sockets: %s connected but %s disconnected events after %s()" % (
+                kv.get("connected"), kv.get("disconnected"), a), cmdline, {}))
+    res.append((True, "", "", {"real_socket_teardown_races": n}))
+    return res
